@@ -97,3 +97,32 @@ package advanced
 //@   ensures in(old(s.jobs), name) ==> result != nil
 //@   ensures result != nil ==> calls(go) == 0 && (forall n string {in(s.jobs, n)} :: (in(s.jobs, n) <==> in(old(s.jobs), n)) && s.jobs[n] == old(s.jobs[n]))
 //@   ensures result == nil ==> calls(go) == 1
+//@
+//@ // ---- periodic jobs ----
+//@ // a periodic job is entered like a one-off job (a name in use is refused and nothing changes) and gets one goroutine
+//@ func (*Service).SchedulePeriodicJob
+//@   requires s != nil && nolocks()
+//@   requires !isnil(scheduler.ErrNoJobName) && !isnil(scheduler.ErrNoRuntimeFunc) && !isnil(scheduler.ErrNoJobFunc) && !isnil(scheduler.ErrJobAlreadyExists)
+//@   at call Unlock#2: assert !in(old(s.jobs), name) && in(s.jobs, name) && fresh(s.jobs[name]) && s.jobs[name].periodic
+//@   at call Unlock#2: assert forall n string {in(s.jobs, n)} :: n != name ==> (in(s.jobs, n) <==> in(old(s.jobs), n)) && s.jobs[n] == old(s.jobs[n])
+//@   ensures in(old(s.jobs), name) ==> result != nil
+//@   ensures result != nil ==> calls(go) == 0 && (forall n string {in(s.jobs, n)} :: (in(s.jobs, n) <==> in(old(s.jobs), n)) && s.jobs[n] == old(s.jobs[n]))
+//@   ensures result == nil ==> calls(go) == 1
+//@
+//@ // the goroutine of a periodic job: the job function is only ever called from here (so it never overlaps itself); a
+//@ // timer run or an early run is followed by the next round (it keeps ticking); the goroutine ends only by a stop -
+//@ // parent context, cancellation, or the run-time function ending the series - and then finalises the job exactly once
+//@ func (*Service).SchedulePeriodicJob$1
+//@   thread
+//@   requires s != nil && job != nil && jobFunc != nil && runtimeFunc != nil && nolocks() && job.cancelCh != job.runCh && !closed(job.cancelCh) && !closed(job.runCh)
+//@   loop 1
+//@     invariant !closed(job.cancelCh) && !closed(job.runCh) && calls(finaliseJob) == 0 && calls(monitorJobCancelled) == 0 && nolocks()
+//@   exit calls(finaliseJob) == 1 && calls(monitorJobCancelled) == 1
+//@
+//@ func (*Service).CancelJobIfExists
+//@   requires s != nil && nolocks() && !isnil(scheduler.ErrNoSuchJob)
+//@   ensures !in(s.jobs, name)
+//@   modifies contents(s.jobs), heap:AtomicBool
+//@
+//@ func (*Service).CancelJobs
+//@   requires s != nil && nolocks() && !isnil(scheduler.ErrNoSuchJob)
